@@ -60,7 +60,9 @@ prop("C07", "other", _GENERIC + "Proved: Name equality contract (shared with C06
      "intersection and difference against set theory over the abstract key set, including the self-aliasing cases; Rdataset.add and "
      "update_ttl (a record of another class/type or a signature covering another type is refused and nothing changes; singleton "
      "types replace; TTL minimisation; the covered type is adopted only by an empty set that declared none), modular over Set.add. "
-     "Copying forms, insertion order, the other Rdataset operations and immutability are bounded.", needs_obligations=True,
+     "Rdata.__eq__ and __hash__ both go through the canonical form (class, type, relativity and to_digestable octets), with the lemma "
+     "that equal records hash equally, over an assumed per-record canonical form. Copying forms, insertion order, the other "
+     "Rdataset operations and immutability are bounded.", needs_obligations=True,
      assumptions=["A-key: element == is an equivalence with a consistent hash (elements are abstracted as integer identities)"])
 prop("C08", "other", _GENERIC + "Proved: the budget invariant of reserve/release_reserved, Renderer._rollback, and 'a record set that "
      "does not fit is removed whole' for add_question, add_rrset and add_rdataset (on TooBig the buffer, counts and compression "
